@@ -1,5 +1,6 @@
 import ZbossModel.Proofs.Frag
 import ZbossModel.Props.C05
+import ZbossModel.Generated.Exprs
 /-! # C09 - outgoing fragmentation partitions any message exactly, within the size limit
 
 `Frag.fragments (Frag.whole p) p` is the model of `to_frame().handle_tx_fragmentation()`
@@ -148,5 +149,19 @@ example : ∃ data : Bytes, Gen.bodyMax < (HLPacket.mk (some 0x00020000#32) data
   refine ⟨List.replicate 244 7, ?_, ?_, by decide⟩ <;>
     rw [body_some _ (by decide), List.length_append, HLH.bytes_length, List.length_replicate]
   rw [bodyMax_eq]; omega
+
+/-- **source tie (translator 4)**: the expressions `count_fragments` and `handle_tx_fragmentation` evaluate in the
+    working tree - translated from the Python ast on every run - are the model's, for every body length -/
+theorem C09_source_exprs (n : Nat) :
+    Gen.countFragmentsExpr n = ((ceilDiv n Gen.bodyMax : Nat) : Int) ∧
+    Gen.firstFragSizeExpr n = ((firstSize n : Nat) : Int) := by
+  constructor
+  · unfold Gen.countFragmentsExpr ceilDiv Gen.bodyMax; omega
+  · unfold Gen.firstFragSizeExpr firstSize Gen.pyOr Gen.bodyMax
+    by_cases h : n % 247 = 0
+    · have h' : ¬ ((n : Int) % 247 ≠ 0) := by omega
+      rw [if_neg h', if_pos h]; omega
+    · have h' : ((n : Int) % 247 ≠ 0) := by omega
+      rw [if_pos h', if_neg h]; omega
 
 end Zboss.Frag
